@@ -318,12 +318,12 @@ type signer struct {
 
 type tokenSpec struct {
 	Desc   string
-	Signer int               // index into signers
-	Alg    string            // JWS alg used to sign ("none", "HS256" = MAC with public key bytes)
-	Claims map[string]any    // as sent
-	Hdr    map[string]any    // extra protected headers
-	Form   string            // compact | json-general-1 | json-general-2 (second signature by unauthorized key first/last) | flattened
-	Mangle string            // "", "flip-sig", "flip-payload", "trunc"
+	Signer int            // index into signers
+	Alg    string         // JWS alg used to sign ("none", "HS256" = MAC with public key bytes)
+	Claims map[string]any // as sent
+	Hdr    map[string]any // extra protected headers
+	Form   string         // compact | json-general-1 | json-general-2 (second signature by unauthorized key first/last) | flattened
+	Mangle string         // "", "flip-sig", "flip-payload", "trunc"
 }
 
 var now = time.Now()
